@@ -836,11 +836,17 @@ def case_filler(d, obs):
         obs.fail(f"C19|Filler|filler_values|bad-shape|{shape}", repr(tbv))
         return
     top, bottom = tbv
-    if len(ch.rendered) != 1:
+    if not ch.rendered and hk != "pack" and is_int(top) and is_int(bottom) and maxrow - top - bottom <= 0:
+        # no row is left for a box body: urwid does not render it at all (nothing is handed to the child); its extent is
+        # what the margins leave, and every clause is still judged on that
+        obs.c["fill.no_room_child_not_rendered"] += 1
+        got = (maxcol, maxrow - top - bottom)
+    elif len(ch.rendered) != 1:
         obs.fail(f"C19|Filler|render|child-not-rendered-exactly-once|{shape}", f"{ch.rendered}")
         return
-    got = ch.rendered[0]
-    obs.c["fill.child_sizes_observed"] += 1
+    else:
+        got = ch.rendered[0]
+        obs.c["fill.child_sizes_observed"] += 1
     if not got or got[0] != maxcol:
         obs.fail(f"C19|Filler|render|child-width!=maxcol|{shape}", f"{got}")
         return
@@ -920,14 +926,24 @@ def case_overlay(d, obs):
         rerr = e
         rtb = tb()
     flush_spies(obs, [ch], "Overlay")
-    if len(ch.rendered) != 1:
+    noroom = False
+    if not ch.rendered and rendered_ok and topkind != "fixed-top" and all(is_int(v) for v in vals):
+        room = (maxcol - left - right,) if topkind == "flow-top" else (maxcol - left - right, maxrow - top - bottom)
+        noroom = any(v <= 0 for v in room)
+    if noroom:
+        # a relative size rounded down to nothing / margins as large as the overlay: urwid shows only the bottom widget and
+        # hands nothing to the top widget; its extent is what the margins leave, the clauses are judged on that
+        obs.c["ovl.no_room_top_not_rendered"] += 1
+        got = room
+    elif len(ch.rendered) != 1:
         if rendered_ok:
             obs.fail(f"C19|Overlay|render|child-not-rendered-exactly-once|{shape}", f"{ch.rendered}")
         else:
             obs.fail(f"C19|Overlay|render|raise:{type(rerr).__name__}|{shape}", f"{type(rerr).__name__}: {rerr}\n{rtb}")
         return
-    got = ch.rendered[0]
-    obs.c["ovl.child_sizes_observed"] += 1
+    else:
+        got = ch.rendered[0]
+        obs.c["ovl.child_sizes_observed"] += 1
     # ---- horizontal
     if topkind == "fixed-top":
         if got != ():
